@@ -790,6 +790,8 @@ class Plane(Generic[LTComponentT]):
 
     def add(self, obj: LTComponentT) -> None:
         """Place an object."""
+        if obj in self._objs:
+            return
         for k in self._getrange((obj.x0, obj.y0, obj.x1, obj.y1)):
             if k not in self._grid:
                 r: List[LTComponentT] = []
@@ -808,6 +810,7 @@ class Plane(Generic[LTComponentT]):
             except (KeyError, ValueError):
                 pass
         self._objs.remove(obj)
+        self._seq.remove(obj)
 
     def find(self, bbox: Rect) -> Iterator[LTComponentT]:
         """Finds objects that are in a certain area."""
